@@ -118,3 +118,24 @@ Definition cmt_ins_okb (g : grammar) (cfg : config) (orc' : nat -> nat -> option
       end)%bool.
 
 Definition not_aborted (o : outcome) : Prop := match o with Aborted _ => False | _ => True end.
+
+(* ---------------------------------------------------------------- whole-run tiling (Proofs/PegGap.v) *)
+(* every whitespace set the parser can ever have: the configured one and the rule-level ones *)
+Definition all_ws (g : grammar) (cfg : config) : list N :=
+  c_ws cfg ++ flat_map (fun nd => match n_ws nd with Some w => w | None => [] end) (g_nodes g).
+
+
+(* the top node is Sequence(..., EOF), as textX builds it (decidable, checked per case) *)
+Definition top_eof (g : grammar) : bool :=
+  match get_node g (g_top g) with
+  | Some nd =>
+    match n_kind nd, rev (n_kids nd) with
+    | KSeq, c :: _ => match get_node g c with
+                      | Some ndc => match n_kind ndc with KEOF => true | _ => false end
+                      | None => false
+                      end
+    | _, _ => false
+    end
+  | None => false
+  end.
+
